@@ -392,6 +392,12 @@ func c01Gen(r *Rng, tier string, i int) Sx {
 	for k := 0; k < 12; k++ {
 		qs = append(qs, L(A("m"), S(g.probeMethod(t)), S(g.probePath(t))))
 	}
+	if r.Chance(1, 10) {
+		opts, qs = rtGvar(r, t, opts, qs)
+		for k := range qs {
+			qs[k].List[0] = A("m")
+		}
+	}
 	return L(A("rt"), LS(opts), LS(t.defs), LS(qs))
 }
 
@@ -414,6 +420,9 @@ func c02Gen(r *Rng, tier string, i int) Sx {
 			qs = append(qs, L(A(kind), S(m), S(p)))
 		}
 	}
+	if r.Chance(1, 8) {
+		opts, qs = rtGvar(r, t, opts, qs)
+	}
 	if r.Chance(1, 6) { // very long paths that differ in the middle only: each gets its own parameters, cached or not
 		d, a, b := rtLongTwin(r, true)
 		t.defs = append(t.defs, d)
@@ -425,6 +434,21 @@ func c02Gen(r *Rng, tier string, i int) Sx {
 		}
 	}
 	return L(A("rt"), LS(opts), LS(t.defs), LS(qs))
+}
+
+// rtGvar: a global path variable of the application's own (SetGlobalVar after the router exists, before the route is added):
+// {sku} then stands for {sku:regex}
+func rtGvar(r *Rng, t *rtTable, opts, qs []Sx) ([]Sx, []Sx) {
+	gv := L(A("gvar"), S("sku"), S(`[A-Z]{3}-[0-9]{4}`))
+	if r.Bool() { // the variable was defined differently before
+		gv.List = append(gv.List, S(`[a-z]+-[0-9]+`))
+	}
+	opts = append(opts, gv)
+	t.defs = append(t.defs, L(SL([]string{"GET"}), S("/p/{sku}"), B(false)), L(SL([]string{"GET"}), S("/q/{sku}/{v9}"), B(false)))
+	for _, p := range []string{"/p/ABC-1234", "/p/abc-1234", "/p/ABC-12345", "/q/XYZ-0001/k", "/q/xyz/k"} {
+		qs = append(qs, L(A(r.Pick([]string{"m", "s"})), S("GET"), S(p)))
+	}
+	return opts, qs
 }
 
 func rtClassify(c, obs Sx) []string {
